@@ -33,6 +33,16 @@ pub struct World {
     pub outsider_sigma: Vec<u8>,
     /// hashes usable as path nodes: every value seen in an honest batch path of this registration
     pub value_alphabet: Vec<Value>,
+    /// observations about the set-up that are recorded in the evidence instead of stopping the run
+    pub notes: Vec<&'static str>,
+}
+
+/// why a registration could not be set up
+pub enum SetupError {
+    /// a call into the code under test failed or panicked: a completeness violation
+    RealCode(String),
+    /// serde of real values failed on the harness side: no verdict possible
+    Harness(String),
 }
 
 fn bytes_of(v: &Value) -> Vec<u8> {
@@ -47,48 +57,70 @@ fn params(n: usize, k: usize) -> Parameters {
 }
 
 impl World {
-    pub fn new(n: usize) -> Result<World, String> {
+    pub fn new(n: usize) -> Result<World, SetupError> {
+        match catch(|| World::build(n)) {
+            Ok(r) => r,
+            Err(p) => Err(SetupError::RealCode(format!("panic: {p} at {}", mc_core::last_panic_location()))),
+        }
+    }
+
+    fn build(n: usize) -> Result<World, SetupError> {
+        use SetupError::{Harness, RealCode};
+        let mut notes: Vec<&'static str> = vec![];
         let p = params(n, 1);
         let mut rng = ChaCha20Rng::from_seed([0xC9u8; 32]);
         // distinct stakes: the tree orders leaves by stake first
         let inits: Vec<Initializer> = (0..n).map(|i| Initializer::new(p, 10 + i as u64, &mut rng)).collect();
         let mut reg = KeyRegistration::initialize();
         for i in &inits {
-            reg.register(i.stake, &i.get_verification_key_proof_of_possession_for_concatenation()).map_err(|e| format!("register: {e}"))?;
+            reg.register(i.stake, &i.get_verification_key_proof_of_possession_for_concatenation()).map_err(|e| RealCode(format!("register: {e}")))?;
         }
-        let closed = reg.close_registration(&p).map_err(|e| format!("close: {e}"))?;
+        let closed = reg.close_registration(&p).map_err(|e| RealCode(format!("close: {e}")))?;
         let mut signers: Vec<Signer<D>> = vec![];
         for i in inits {
-            signers.push(i.try_create_signer::<D>(&closed).map_err(|e| format!("signer: {e}"))?);
+            signers.push(i.try_create_signer::<D>(&closed).map_err(|e| RealCode(format!("signer: {e}")))?);
         }
         let clerk = Clerk::<D>::new_clerk_from_closed_key_registration(&p, &closed);
         let avk = clerk.compute_aggregate_verification_key();
+        // tree position of every party: as the signers report it; it is expected to follow the stake
+        // order (independent expectation), a different but consistent order is only noted
+        let mut by_position: Vec<Option<((Vec<u8>, u64), Value)>> = vec![None; n];
+        for (i, s) in signers.iter().enumerate() {
+            let sig: SingleSignature = s.sign(MSG).ok_or_else(|| RealCode("a signer lost every lottery with phi_f = 1".into()))?;
+            let sj = serde_json::to_value(&sig).map_err(|e| Harness(e.to_string()))?;
+            let pos = sj["signer_index"].as_u64().unwrap_or(u64::MAX) as usize;
+            if pos != i && !notes.contains(&"tree positions do not follow the stake order; the positions the signers report are used") {
+                notes.push("tree positions do not follow the stake order; the positions the signers report are used");
+            }
+            let vk = serde_json::to_value(s.get_bls_verification_key()).map_err(|e| Harness(e.to_string()))?;
+            match by_position.get_mut(pos) {
+                Some(slot @ None) => *slot = Some(((bytes_of(&vk), s.get_stake()), sj)),
+                _ => return Err(RealCode(format!("the signers report tree positions that are not a permutation of 0..{n} (party {i} reports {pos})"))),
+            }
+        }
         let mut registered = vec![];
         let mut sig_json = vec![];
-        for (i, s) in signers.iter().enumerate() {
-            let sig: SingleSignature = s.sign(MSG).ok_or("signer lost a lottery with phi_f = 1")?;
-            let sj = serde_json::to_value(&sig).map_err(|e| e.to_string())?;
-            if sj["signer_index"].as_u64() != Some(i as u64) {
-                return Err(format!("party with the {i}-th smallest stake got tree position {}", sj["signer_index"]));
-            }
-            let vk = serde_json::to_value(s.get_bls_verification_key()).map_err(|e| e.to_string())?;
-            registered.push((bytes_of(&vk), s.get_stake()));
+        for slot in by_position {
+            let (party, sj) = slot.ok_or_else(|| RealCode("a tree position is reported by no signer".to_string()))?;
+            registered.push(party);
             sig_json.push(sj);
         }
         // the outsider signs msg ‖ root with a key made by blst itself
-        let avk_json = serde_json::to_value(avk.to_concatenation_aggregate_verification_key()).map_err(|e| e.to_string())?;
+        let avk_json = serde_json::to_value(avk.to_concatenation_aggregate_verification_key()).map_err(|e| Harness(e.to_string()))?;
         let root = bytes_of(&avk_json["mt_commitment"]["root"]);
         if root.len() != 32 || avk_json["mt_commitment"]["nr_leaves"].as_u64() != Some(n as u64) {
-            return Err("unexpected JSON form of the aggregate verification key".into());
+            // the outsider's signature is then over other bytes than the verifier uses and cannot pass the
+            // BLS check; everything else is unaffected
+            notes.push("aggregate verification key does not serialise as expected: the unregistered key's signature may not match msg‖root");
         }
         let mut msgp = MSG.to_vec();
         msgp.extend_from_slice(&root);
         let mut ikm = [0u8; 32];
         rng.fill_bytes(&mut ikm);
-        let sk = blst::min_sig::SecretKey::key_gen(&ikm, &[]).map_err(|e| format!("{e:?}"))?;
+        let sk = blst::min_sig::SecretKey::key_gen(&ikm, &[]).map_err(|e| Harness(format!("{e:?}")))?;
         let outsider_vk = sk.sk_to_pk().to_bytes().to_vec();
         let outsider_sigma = sk.sign(&msgp, &[], &[]).to_bytes().to_vec();
-        let mut w = World { n, registered, closed, avk, sig_json, outsider_vk, outsider_sigma, value_alphabet: vec![] };
+        let mut w = World { n, registered, closed, avk, sig_json, outsider_vk, outsider_sigma, value_alphabet: vec![], notes };
         // path-node alphabet
         let mut vals: Vec<Value> = vec![];
         for mask in 1u32..(1u32 << n) {
@@ -116,6 +148,10 @@ impl World {
 
     /// the aggregate the real clerk builds when exactly the parties of `subset` sign (party j holds lottery index j)
     pub fn honest(&self, subset: &[usize]) -> Result<Value, String> {
+        catch(|| self.honest_inner(subset)).map_err(|p| format!("panic: {p}"))?
+    }
+
+    fn honest_inner(&self, subset: &[usize]) -> Result<Value, String> {
         let sigs: Vec<SingleSignature> = subset
             .iter()
             .map(|&p| serde_json::from_value(self.single(p, &[p])).map_err(|e| format!("single signature from JSON: {e}")))
@@ -354,11 +390,24 @@ pub fn sweep_one(n: usize, mask: u32, depth: usize) -> Report {
     let mut rep = Report::new("exploration", "");
     let w = match World::new(n) {
         Ok(w) => w,
-        Err(e) => {
-            rep.machinery_error(format!("cannot set up a registration of {n} parties: {e}"));
+        Err(SetupError::Harness(e)) => {
+            rep.machinery_error(format!("cannot serialise the values of a registration of {n} parties: {e}"));
+            return rep;
+        }
+        Err(SetupError::RealCode(e)) => {
+            // completeness is part of C09: the registration tree is built while the signers are created
+            rep.eval();
+            rep.violation(
+                "C09/stm-aggregate:honest-aggregate-rejected",
+                format!("a registration of {n} honest parties cannot be set up, so no aggregate can be produced: {e}"),
+                json!({"part": "stm-aggregate-honest", "n": n, "subset": []}),
+            );
             return rep;
         }
     };
+    for note in &w.notes {
+        rep.extra(&format!("stm_aggregate_note: {note}"), json!(true));
+    }
     {
         let subset: Vec<usize> = (0..n).filter(|i| mask >> i & 1 == 1).collect();
         let k = subset.len();
@@ -427,7 +476,11 @@ pub fn replay(rep: &mut Report, v: &Value) {
         rep.merge(sweep(n, 0));
         return;
     }
-    let w = World::new(n).expect("world");
+    let Ok(w) = World::new(n) else {
+        eprintln!("replay (stm-aggregate): the registration cannot be set up");
+        rep.merge(sweep_one(n, 1, 0));
+        return;
+    };
     let verdict = eval(rep, &w, v["k"].as_u64().unwrap_or(1) as usize, &v["aggregate"], v["made_by"].as_str().unwrap_or("replay"));
     eprintln!("replay (stm-aggregate): verdict {verdict:?}");
 }
